@@ -126,33 +126,7 @@ def run(ctx):
         unknown = [i for i, r in enumerate(rows) if r not in cw_ref and r not in ccw_ref]
         run.inst("C18.D2", "rows-are-known-layouts", len(rows) == 12 and not unknown,
                  "every one of the 12 orientation rows is one of the four reference layouts (unknown rows: %s)" % unknown)
-    # classification
-    if ISCW not in facts.fns:
-        run.note("is_layout_clockwise no longer exists as a function: the winding classification is decided through C18.D3 winding-direction over the four reference layouts")
-    else:
-        ft = fn_terms(facts, ISCW)
-        compared = []
-        shape_ok = True
-        for rb in ft.return_blocks():
-            for leaf in leaves_under(ft, ft.return_term(rb), {}):
-                if is_const(leaf):
-                    continue
-                if leaf[0] == "call" and leaf[1].endswith("::eq"):
-                    continue
-                shape_ok = False
-        for c in ft.calls():
-            if c.callee and c.callee.endswith("::eq"):
-                g = set()
-                for a in c.args:
-                    g |= globals_in(facts, a)
-                vals = [const_py(facts, x) for x in g]
-                compared += vals
-                if not any(a == ("ref", False, ("param", 1), "_1") or any(x == ("param", 1) for x in walk(a)) for a in c.args):
-                    shape_ok = False
-        same = sorted(map(json.dumps, compared)) == sorted(map(json.dumps, cw_ref))
-        run.inst("C18.D2", "winding-classification", shape_ok and same,
-                 "is_layout_clockwise compares its argument with %d table(s); their values %s the two clockwise reference layouts" % (len(compared), "are exactly" if same else "are NOT"),
-                 where(facts.fns[ISCW]["span"]))
+    # (the winding classification is decided semantically in D3: winding-direction over the four reference layouts)
 
     # ---------------- D3
     if Q2S not in facts.fns or S2Q not in facts.fns:
@@ -170,12 +144,17 @@ def run(ctx):
 
             def slot(t):
                 # orientation value = layout[idx] -> idx term, and check the layout is origin.orientation
-                idx = [x for x in walk(t) if x[0] == "call" and x[1].endswith("::index")]
-                if len(idx) != 1:
+                from .cell_common import elem as _elem
+                reads = []
+                for x in walk(t):
+                    e_ = _elem(x) if x[0] in ("call", "index") else None
+                    if e_ is not None and not any(strip_site(e_[1]) == strip_site(r_[1]) for r_ in reads):
+                        reads.append(e_)
+                if len(reads) != 1:
                     return None, None
-                base = idx[0][2][0]
+                base, idx_t = reads[0]
                 is_layout = any(x[0] == "field" and x[2] == "orientation" and any(y == ("param", 2) for y in walk(x)) for x in walk(base))
-                return idx[0][2][1], is_layout
+                return idx_t, is_layout
             i1, l1 = slot(or1)
             i2, l2 = slot(or2)
             run.inst("C18.D3", "orientation-source", bool(l1 and l2), "both directions return origin.orientation[slot]", where(facts.fns[Q2S]["span"]))
